@@ -156,7 +156,9 @@ func VH_Defaults(a []int) {
 		ps.Containers = []corev1.Container{{Name: "c", Image: "nginx"}}
 	}
 
+	before := set.DeepCopy()
 	SetObjectDefaults_StatefulSet(set)
+	vExplicitKept(before, set)
 	once := set.DeepCopy()
 	SetObjectDefaults_StatefulSet(set)
 	sym.Assert(reflect.DeepEqual(once, set), "C19", "defaulting twice equals defaulting once")
@@ -167,4 +169,34 @@ func VH_Defaults(a []int) {
 	}
 	sym.Note("policy", string(set.Spec.PodManagementPolicy), "strategy", string(set.Spec.UpdateStrategy.Type), "volumes", len(ps.Volumes))
 	sym.Cover("defaulted")
+}
+
+// vExplicitKept: in the pod template defaulting only fills what is unset - a value written explicitly
+// (including an explicit zero behind a pointer) is the same after defaulting, so an object that was
+// read back and is re-submitted through the hijack client keeps its pod template. (Set-level fields
+// are deliberately not included: like upstream, SetDefaults_StatefulSet replaces the rollingUpdate
+// block when the strategy type is omitted; the statement speaks about the pod template.)
+func vExplicitKept(before, after *StatefulSet) {
+	keptI64 := func(b, a *int64) bool { return b == nil || (a != nil && *a == *b) }
+	keptStr := func(b, a string) bool { return sym.Or(b == "", a == b) }
+	bp, ap := &before.Spec.Template.Spec, &after.Spec.Template.Spec
+	sym.Assert(keptI64(bp.TerminationGracePeriodSeconds, ap.TerminationGracePeriodSeconds), "C19", "explicit values survive defaulting: terminationGracePeriodSeconds")
+	sym.Assert(keptStr(string(bp.DNSPolicy), string(ap.DNSPolicy)), "C19", "explicit values survive defaulting: dnsPolicy")
+	sym.Assert(keptStr(string(bp.RestartPolicy), string(ap.RestartPolicy)), "C19", "explicit values survive defaulting: restartPolicy")
+	sym.Assert(keptStr(bp.SchedulerName, ap.SchedulerName), "C19", "explicit values survive defaulting: schedulerName")
+	sym.Assert(bp.HostNetwork == ap.HostNetwork, "C19", "explicit values survive defaulting: hostNetwork")
+	for k := range bp.Containers {
+		if k >= len(ap.Containers) {
+			sym.Assert(false, "C19", "explicit values survive defaulting: containers")
+			break
+		}
+		b, a := bp.Containers[k], ap.Containers[k]
+		sym.Assert(sym.And(a.Image == b.Image, keptStr(string(b.ImagePullPolicy), string(a.ImagePullPolicy)), keptStr(b.TerminationMessagePath, a.TerminationMessagePath),
+			keptStr(string(b.TerminationMessagePolicy), string(a.TerminationMessagePolicy))), "C19", "explicit values survive defaulting: container fields")
+		for j := range b.Ports {
+			if j < len(a.Ports) {
+				sym.Assert(sym.And(a.Ports[j].ContainerPort == b.Ports[j].ContainerPort, keptStr(string(b.Ports[j].Protocol), string(a.Ports[j].Protocol))), "C19", "explicit values survive defaulting: ports")
+			}
+		}
+	}
 }
